@@ -72,7 +72,9 @@ func (c *singleCheckout) Run(p *lfs.WrappedPointer) {
 	filepointer, err := lfs.DecodePointerFromFile(cwdfilepath)
 	if err != nil {
 		if os.IsNotExist(err) {
-			output, err := git.DiffIndexWithPaths("HEAD", true, []string{p.Name})
+			// p.Name is relative to the root of the work tree, whatever
+			// the current directory is, and names one file literally.
+			output, err := git.DiffIndexWithPaths("HEAD", true, []string{":(top,literal)" + p.Name})
 			if err != nil {
 				LoggedError(err, tr.Tr.Get("Checkout error trying to run diff-index: %s", err))
 				return
